@@ -24,6 +24,21 @@
 //!                        of the requested Σ: every coordinate and 8 random unit projections pass
 //!                        the same DKW test against N(0,1).
 //! False-alarm probability of a run <= (#DKW tests)·1e-12 by construction.
+//!
+//! Two further workload families (both part of "every valid parameter setting" / "every random stream"):
+//!   * `mvn:badly-scaled`  covariances Σ = D·R·D whose coordinates live on very different scales
+//!                        (standard deviations 1e-8..1e2, i.e. variances 1e-16..1e4, variance ratio
+//!                        >= 1e6 between two coordinates, strong correlations, d = 1..6), judged by the
+//!                        same whitening + DKW criterion. Cholesky factorisation commutes with a
+//!                        diagonal scaling up to rounding (componentwise backward error c·d·u·sqrt(Σii·Σjj)),
+//!                        so a correct sampler is as accurate here as on R itself;
+//!   * `inject:<family>`  fault injection on the RNG stream: the library generator is put into a state
+//!                        after which the (k+1)-th raw 64-bit word has an all-ones / all-zero 32-bit
+//!                        half (`gen::ADVERSARIAL_ALEA`), k = 0..11, and the next 12 draws of every law
+//!                        of the grid are checked for no panic / bounded progress / support /
+//!                        integrality / finiteness (through `sample()` and through `sample_n`). These
+//!                        are the words at which an "inclusive end point" slip of a sampler shows
+//!                        (probability 2^-32 per draw: out of reach of any census). No statistics.
 use crate::gen::Rng;
 use crate::oracle::linref;
 #[cfg(not(miri))]
@@ -386,6 +401,73 @@ fn mvn_random(rng: &mut Rng, d: usize) -> MvnSpec {
     }
     let mean = (0..d).map(|_| rng.range(-1e3, 1e3)).collect();
     MvnSpec { regime: "mvn:correlated", mean, sigma: s }
+}
+
+/// Σ = D·R·D: R a correlation matrix with strong correlations (one-factor model R_ij = a_i·a_j,
+/// |a_i| in 0.5..0.97, or a normalised Wishart draw), D = diag(sd_i). Built entry by entry and
+/// mirrored (exactly symmetric). `log10_sd` gives the scales.
+fn mvn_from_scales(rng: &mut Rng, log10_sd: &[f64], factor_model: bool) -> MvnSpec {
+    let d = log10_sd.len();
+    let sd: Vec<f64> = log10_sd.iter().map(|e| 10f64.powf(*e)).collect();
+    let mut r = vec![0.0; d * d];
+    if factor_model {
+        let a: Vec<f64> = (0..d).map(|_| rng.range(0.5, 0.97) * if rng.bool() { 1.0 } else { -1.0 }).collect();
+        for i in 0..d {
+            for j in 0..d {
+                r[i * d + j] = if i == j { 1.0 } else { a[i] * a[j] };
+            }
+        }
+    } else {
+        let g: Vec<f64> = rng.normals(d * d);
+        let mut w = vec![0.0; d * d];
+        for i in 0..d {
+            for j in 0..d {
+                let mut v = if i == j { 0.05 } else { 0.0 };
+                for k in 0..d {
+                    v += g[i * d + k] * g[j * d + k];
+                }
+                w[i * d + j] = v;
+            }
+        }
+        for i in 0..d {
+            for j in 0..d {
+                r[i * d + j] = if i == j { 1.0 } else { w[i * d + j] / (w[i * d + i] * w[j * d + j]).sqrt() };
+            }
+        }
+    }
+    let mut s = vec![0.0; d * d];
+    for i in 0..d {
+        for j in 0..=i {
+            let v = (sd[i] * sd[j]) * r[i * d + j];
+            s[i * d + j] = v;
+            s[j * d + i] = v;
+        }
+    }
+    // means on the scale of the coordinate (so that a draw resolves its own standard deviation) or O(1)
+    let mean = (0..d).map(|i| if rng.bool() { sd[i] * rng.range(-100.0, 100.0) } else { rng.range(-1.0, 1.0) }).collect();
+    MvnSpec { regime: "mvn:badly-scaled", mean, sigma: s }
+}
+
+/// Random badly scaled covariance: d = 2..6, log10 sd in [-8, 2], at least one coordinate in the
+/// bottom and one in the top of that range (variance ratio >= 1e6, typically 1e10..1e20).
+fn mvn_scaled_random(rng: &mut Rng) -> MvnSpec {
+    let d = rng.usize(2, 6);
+    let mut e: Vec<f64> = (0..d).map(|_| rng.range(-8.0, 2.0)).collect();
+    e[0] = rng.range(-8.0, -4.0);
+    e[1] = rng.range(-1.0, 2.0);
+    rng.shuffle(&mut e);
+    let fm = rng.bool();
+    mvn_from_scales(rng, &e, fm)
+}
+
+/// Fixed badly scaled cases (a function of the run seed only through the correlation signs).
+fn mvn_scaled_grid(rng: &mut Rng) -> Vec<MvnSpec> {
+    let mut out = Vec::new();
+    for e in [&[-8.0][..], &[2.0], &[0.5, -6.7], &[-7.0, 1.0], &[2.0, -3.0, -8.0], &[-1.0, -4.0, 0.0, -2.0], &[-8.0, 2.0, -6.0, 0.0, -4.0, -2.0], &[1.5, 1.0, -7.5, 2.0, -7.0, 0.0]] {
+        let fm = e.len() % 2 == 0;
+        out.push(mvn_from_scales(rng, e, fm));
+    }
+    out
 }
 
 #[derive(Clone, Debug)]
@@ -1198,6 +1280,148 @@ fn run_mvn(cfg: &Cfg, rep: &mut Report, spec: &MvnSpec, n: usize, seed: u64, rng
 }
 
 // ---------------------------------------------------------------------------------------------
+// fault injection on the RNG stream
+
+/// Raw words at positions 0..INJECT_DRAWS-1 after the seed are reached by INJECT_DRAWS draws of any
+/// law that consumes at least one word per draw.
+const INJECT_DRAWS: usize = 12;
+
+/// One grid case under every adversarial generator state: the (k+1)-th raw word after the seed has
+/// an extreme 32-bit half. Every draw runs under its own iteration budget and panic guard.
+fn run_inject(cfg: &Cfg, rep: &mut Report, spec: &CaseSpec, rng: &mut Rng) {
+    use crate::gen::{adversarial_seed, ADVERSARIAL_ALEA};
+    let (family, label) = match spec {
+        CaseSpec::One(law) => (law.family(), format!("{:?}", law)),
+        CaseSpec::Mvn(m) => ("mvn", format!("MVN d={} ({})", m.mean.len(), m.regime)),
+    };
+    let regime = format!("inject:{}", family);
+    arm_budget(cfg);
+    enum Built {
+        One(Box<dyn Distribution1D>),
+        Mvn(MVN, usize),
+    }
+    let built = guard(|| match spec {
+        CaseSpec::One(law) => Built::One(law.build()),
+        CaseSpec::Mvn(m) => {
+            let d = m.mean.len();
+            Built::Mvn(MVN::new(Vector::new(m.mean.clone()), Matrix::new(m.sigma.clone(), d as i32, d as i32)), d)
+        }
+    });
+    let built = match built {
+        Ok(b) => b,
+        Err(_) => {
+            // judged (and reported) by the ordinary case of the same parameter point
+            vh::set_budget(u64::MAX);
+            return;
+        }
+    };
+    for (si, &(word, state)) in ADVERSARIAL_ALEA.iter().enumerate() {
+        // k = 0..5 and one later position
+        let mut ks: Vec<u64> = (0..6).collect();
+        ks.push(rng.usize(6, INJECT_DRAWS - 1) as u64);
+        for k in ks {
+            rep.case(&regime);
+            let seed = adversarial_seed(state, k);
+            let bulk = (si + k as usize) % 2 == 1;
+            let ctx = || json!({"law": label, "family": family, "extreme_word": word, "word_index_after_seed": k, "alea_seed": seed, "api": if bulk { "sample_n(12)" } else { "12 x sample()" }});
+            alea::set_seed(seed);
+            // values of the draws (1-D: one per draw; MVN: d per draw), None = aborted
+            let mut vals: Vec<f64> = Vec::with_capacity(INJECT_DRAWS * 6);
+            let mut failed = false;
+            let calls = if bulk { 1 } else { INJECT_DRAWS };
+            for _ in 0..calls {
+                vh::reset();
+                let r = guard(|| match &built {
+                    Built::One(d) => {
+                        if bulk {
+                            let v = d.sample_n(INJECT_DRAWS).v;
+                            (v.len() == INJECT_DRAWS, v)
+                        } else {
+                            (true, vec![d.sample()])
+                        }
+                    }
+                    Built::Mvn(m, d) => {
+                        if bulk {
+                            let mm = DistributionND::sample_n(m, INJECT_DRAWS);
+                            (mm.nrows == INJECT_DRAWS && mm.ncols == *d && mm.data.v.len() == INJECT_DRAWS * d, mm.data.v)
+                        } else {
+                            let v = m.sample().v;
+                            (v.len() == *d, v)
+                        }
+                    }
+                });
+                // (the ticks of these draws are not coverage evidence for the sampler branches: dropped)
+                vh::reset();
+                match r {
+                    Ok((shape_ok, v)) => {
+                        if !shape_ok {
+                            rep.check("C03.bulk.total", &regime, false, || {
+                                let mut c = ctx();
+                                c["returned_len"] = json!(v.len());
+                                c
+                            });
+                            failed = true;
+                            break;
+                        }
+                        vals.extend_from_slice(&v);
+                    }
+                    Err(msg) => {
+                        // a bulk call shares one budget of 1e6 over 12 draws: a correct sampler needs < 1e2
+                        let id = if is_budget_panic(&msg) { "C03.terminates" } else { "C03.no_panic" };
+                        rep.check(id, &regime, false, || {
+                            let mut c = ctx();
+                            c["draws_before"] = json!(vals.len());
+                            c["panic"] = json!(msg);
+                            c["expected"] = json!("a draw inside the support for every random stream");
+                            c
+                        });
+                        failed = true;
+                        break;
+                    }
+                }
+            }
+            if failed {
+                continue;
+            }
+            rep.check("C03.no_panic", &regime, true, || json!(null));
+            rep.check("C03.terminates", &regime, true, || json!(null));
+            match spec {
+                CaseSpec::One(law) => {
+                    let bad = vals.iter().position(|&x| !law.in_support(x));
+                    rep.check("C03.support", &regime, bad.is_none(), || {
+                        let mut c = ctx();
+                        c["draw_index"] = json!(bad.unwrap());
+                        c["observed"] = jnum(vals[bad.unwrap()]);
+                        c["draws"] = jf(&vals);
+                        c["expected"] = json!("finite value inside the closed support");
+                        c
+                    });
+                    if law.discrete() {
+                        let badi = vals.iter().position(|&x| !(x.is_finite() && x == x.trunc()));
+                        rep.check("C03.integer", &regime, badi.is_none(), || {
+                            let mut c = ctx();
+                            c["draw_index"] = json!(badi.unwrap());
+                            c["observed"] = jnum(vals[badi.unwrap()]);
+                            c
+                        });
+                    }
+                }
+                CaseSpec::Mvn(_) => {
+                    let bad = vals.iter().position(|x| !x.is_finite());
+                    rep.check("C03.support", &regime, bad.is_none(), || {
+                        let mut c = ctx();
+                        c["value_index"] = json!(bad.unwrap());
+                        c["observed"] = jnum(vals[bad.unwrap()]);
+                        c
+                    });
+                }
+            }
+        }
+    }
+    vh::set_budget(u64::MAX);
+}
+
+// ---------------------------------------------------------------------------------------------
 
 const REGIMES_1D: &[&str] = &[
     "normal:sigma>0",
@@ -1236,7 +1460,8 @@ const REGIMES_1D: &[&str] = &[
     "bernoulli:p=0",
     "bernoulli:p=1",
 ];
-const REGIMES_MVN: &[&str] = &["mvn:d=1", "mvn:identity", "mvn:diagonal", "mvn:correlated"];
+const REGIMES_MVN: &[&str] = &["mvn:d=1", "mvn:identity", "mvn:diagonal", "mvn:correlated", "mvn:badly-scaled"];
+const FAMILIES: &[&str] = &["normal", "gamma", "beta", "chi2", "t", "poisson", "binomial", "exponential", "gumbel", "pareto", "uniform", "discrete-uniform", "bernoulli", "mvn"];
 
 /// (site, minimum in a native run, required (>= 1) in the lite / Miri smoke run of 48 draws per regime)
 const SITES: &[(&str, u64, bool)] = &[
@@ -1267,11 +1492,12 @@ const SITES: &[(&str, u64, bool)] = &[
 ];
 
 pub fn run(cfg: &Cfg, rep: &mut Report) {
-    rep.rule = "fixed grid of parameter points covering every sampler branch named in the quantifier (gamma shape <1/3, =1/3, <1, >=1 and beta/chi2/t built on it; Poisson rate <10, 10..100, 125/149, >=150; binomial inversion/BTPE on both sides of n*min(p,1-p)=30 with and without the p<->1-p flip, p in {0,1}, n up to 1e5; equal-bounds uniform/discrete uniform; normal |mu|<=1e3, sigma=0; MVN d=1..4) plus random parameter points inside the same regimes; each case = one law, one alea seed, n draws requested through sample/sample_n/sample_matrix in turn (quick 2e5, thorough 4e6; the grid is run with 2 (quick) / 3 (thorough) alea seeds per point plus 32 / 96 random points; quick adds 24 sentinel cases at n = 4e6). non-trivial = the law is not a point mass; distinct by (law, parameters, alea seed)".into();
+    rep.rule = "fixed grid of parameter points covering every sampler branch named in the quantifier (gamma shape <1/3, =1/3, <1, >=1 and beta/chi2/t built on it; Poisson rate <10, 10..100, 125/149, >=150; binomial inversion/BTPE on both sides of n*min(p,1-p)=30 with and without the p<->1-p flip, p in {0,1}, n up to 1e5; equal-bounds uniform/discrete uniform; normal |mu|<=1e3, sigma=0; MVN d=1..4; badly scaled MVN covariances D*R*D with standard deviations 1e-8..1e2, variance ratio >= 1e6, |correlations| up to 0.94, d = 1..6: 8 fixed + 12 (24) random) plus random parameter points inside the same regimes; each case = one law, one alea seed, n draws requested through sample/sample_n/sample_matrix in turn (quick 2e5, thorough 4e6; the grid is run with 2 (quick) / 3 (thorough) alea seeds per point plus 32 / 96 random points; quick adds 24 sentinel cases at n = 4e6). non-trivial = the law is not a point mass; distinct by (law, parameters, alea seed). Fault injection: every grid point x 8 adversarial alea states (a raw word with an all-ones / all-zero 32-bit half) x word position 0..5 and one in 6..11 x {12 sample() calls, sample_n(12)}: no panic, bounded progress, support, integrality".into();
     rep.assume("parameters are finite and accepted by the constructor's documented domain (no NaN/inf parameters)");
     rep.assume("bulk shapes have positive dimensions for the matrix forms (Matrix cannot represent 0 rows: C15); sample_n(0) is checked for the vector form");
     rep.assume("'terminates' is restated as bounded progress: no single draw ticks any rejection-loop site more than 1e6 times (DESIGN §0)");
-    rep.assume("discrete-uniform bounds within ±1e9, binomial n <= 1e5, Poisson rate <= 3e3, MVN dimension <= 4 with cond(Σ) < 1e6");
+    rep.assume("discrete-uniform bounds within ±1e9, binomial n <= 1e5, Poisson rate <= 3e3, MVN dimension <= 4 with cond(Σ) < 1e6, except the badly scaled family: dimension <= 6, the correlation matrix R has cond < 1e4 while cond(Σ) reaches 1e20 through the diagonal scaling alone");
+    rep.assume("fault injection reaches raw words with an extreme 32-bit half (low half = what u32() returns, high half = the leading bits of f64()); a word whose top 53 bits are all zero (f64() == 0, probability 2^-53) is not injected");
     rep.assume("supports are taken closed (a boundary value produced by rounding is accepted)");
     if cfg.miri() {
         rep.assume("Miri smoke: no FFI, so only no_panic/terminates/bulk/support/integer assertions run; DKW needs the native layer");
@@ -1280,6 +1506,14 @@ pub fn run(cfg: &Cfg, rep: &mut Report) {
     // case list: deterministic function of (tier, seed)
     let mut gen = Rng::new(cfg.seed ^ 0xC03C03C03);
     let mut cases: Vec<(CaseSpec, usize)> = base_grid().into_iter().map(|c| (c, n)).collect();
+    // badly scaled covariances: an own generator, so that the parameter points of the other families
+    // do not depend on how many of these there are. At most 1.6e7 doubles (128 MB) per case.
+    let mut gen_scaled = Rng::new(cfg.seed ^ 0x5CA1ED_C03);
+    let rows = |spec: &MvnSpec| n.min(16_000_000 / spec.mean.len());
+    for spec in mvn_scaled_grid(&mut gen_scaled) {
+        let r = rows(&spec);
+        cases.push((CaseSpec::Mvn(spec), r));
+    }
     if cfg.lite {
         // keep every regime once (first grid point of each label), drop repeats
         let mut seen = std::collections::BTreeSet::new();
@@ -1300,6 +1534,11 @@ pub fn run(cfg: &Cfg, rep: &mut Report) {
         for _ in 0..extra {
             cases.push((random_case(&mut gen), n));
         }
+        for _ in 0..if cfg.thorough() { 24 } else { 12 } {
+            let spec = mvn_scaled_random(&mut gen_scaled);
+            let r = rows(&spec);
+            cases.push((CaseSpec::Mvn(spec), r));
+        }
         if !cfg.thorough() {
             // the quick tier has time to spare: one deeper case (n = 4e6, eps = 1.9e-3, the upper end of the
             // property's range 2e5..4e6) per algorithm branch of *correct* regimes, so that subtle
@@ -1315,17 +1554,33 @@ pub fn run(cfg: &Cfg, rep: &mut Report) {
     rep.note("n_per_case", json!(n));
     #[cfg(not(miri))]
     rep.note("dkw_eps", json!(stats::dkw_eps(n, ALPHA)));
+    // The cases run CONCURRENTLY on the worker threads, and the shuffled list makes neighbouring
+    // workers sample different laws and different parameter points of one law (e.g. several Poisson
+    // rates) at the same time. This is a property of the workload, not an optimisation: process-wide
+    // state shared between sampler objects (a set-up cache keyed by nothing, a static table filled
+    // lazily) is only exposed when objects with different parameters draw at the same moment. Do not
+    // serialise the cases or group them by law.
     par_cases(cfg, rep, 1, cases.len(), |i, rng, rep| {
         let seed = rng.u64() | 1;
         let nc = cases[i].1;
         match &cases[i].0 {
             CaseSpec::One(law) => run_1d(cfg, rep, law, nc, seed),
-            // n x d doubles (d <= 4) is the only large allocation: 128 MB per case at 4e6 rows
+            // n x d doubles is the only large allocation: <= 128 MB per case (d <= 4 at 4e6 rows; d = 5, 6 capped)
             CaseSpec::Mvn(spec) => run_mvn(cfg, rep, spec, nc, seed, rng),
         }
     });
     for r in REGIMES_1D.iter().chain(REGIMES_MVN) {
         rep.require(r, 1);
+    }
+    // fault injection on the RNG stream: every parameter point of the grid (and the badly scaled
+    // covariances) under every adversarial generator state
+    if !cfg.miri() {
+        let mut inj: Vec<CaseSpec> = base_grid();
+        inj.extend(mvn_scaled_grid(&mut Rng::new(cfg.seed ^ 0x5CA1ED_C03)).into_iter().map(CaseSpec::Mvn));
+        par_cases(cfg, rep, 2, inj.len(), |i, rng, rep| run_inject(cfg, rep, &inj[i], rng));
+        for f in FAMILIES {
+            rep.require(&format!("inject:{}", f), 1);
+        }
     }
     for &(site, min, in_miri) in SITES {
         if cfg.lite {
